@@ -242,6 +242,8 @@ def forms_for(k: int, level_extra: int, module_level: bool) -> list:
         ("from-mixed-name-first", {"kind": "from", "level": 0, "module": "proj.t", "names": [("thing2", None), (f"m{k}", None)]}),
         ("from-two-submodules", {"kind": "from", "level": 0, "module": "proj.t", "names": [(f"m{k}", None), (f"m{(k + 1) % N_PER_FILE}", "z")]}),
         ("rel2-mixed-name-first", {"kind": "from", "level": len(d2), "module": "t", "names": [("thing", "th"), (f"m{k}", None)]}),
+        ("rel2-mixed-module-first", {"kind": "from", "level": len(d2), "module": "t", "names": [(f"m{k}", None), ("thing", "th")]}),
+        ("rel2-two-submodules", {"kind": "from", "level": len(d2), "module": "t", "names": [(f"m{k}", None), (f"m{(k + 1) % N_PER_FILE}", "z")]}),
         ("from-root-submodule", {"kind": "from", "level": 0, "module": "proj", "names": [(f"b{k}", None)]}),
         ("rel1-module", {"kind": "from", "level": len(d1), "module": None, "names": [(f"s{k}", None)]}),
         ("rel1-from-name", {"kind": "from", "level": len(d1), "module": f"s{k}", "names": [("thing", None)]}),
